@@ -380,3 +380,113 @@ pub fn merge_cases(rng: &mut Rng, n: usize) -> Vec<GDoc> {
     }
     out
 }
+
+/// C06 / C02 / C01: a fragment with type condition T (inline and named) inside a selection set of
+/// type P, for EVERY ordered pair (P, T) of composite types of the schema: inside a fragment
+/// definition on P, and (when P is reachable from the query root through fields without required
+/// arguments) inside the operation itself, so that no other rule masks the verdict.
+pub fn spread_pairs(si: &SchemaInfo) -> Vec<String> {
+    use crate::gen::{inner_name, tfields, tname};
+    use graphql_tools::static_graphql::query as q;
+    let comps = si.composite_names();
+    // shortest paths of field names from the query root to each composite type
+    let mut path: std::collections::HashMap<String, Vec<String>> = std::collections::HashMap::new();
+    if let Some(root) = si.root(OpKind::Query) {
+        path.insert(root.clone(), vec![]);
+        let mut queue = std::collections::VecDeque::new();
+        queue.push_back(root);
+        while let Some(cur) = queue.pop_front() {
+            let here = path[&cur].clone();
+            if let Some(td) = si.type_by_name(&cur) {
+                for f in tfields(td) {
+                    let required = f.arguments.iter().any(|a| matches!(a.value_type, q::Type::NonNullType(_)) && a.default_value.is_none());
+                    if required {
+                        continue;
+                    }
+                    let target = inner_name(&f.field_type).to_string();
+                    if comps.contains(&target) && !path.contains_key(&target) {
+                        let mut p = here.clone();
+                        p.push(f.name.clone());
+                        path.insert(target.clone(), p);
+                        queue.push_back(target);
+                    }
+                }
+            }
+        }
+    }
+    let leaf_of = |t: &str| -> String {
+        // a leaf selection valid on T
+        let _ = t;
+        "__typename".to_string()
+    };
+    let mut out = vec![];
+    for p in &comps {
+        for t in &comps {
+            let _ = tname;
+            out.push(format!("{{ __typename }} fragment F on {} {{ ... on {} {{ {} }} }}", p, t, leaf_of(t)));
+            out.push(format!("{{ __typename }} fragment F on {} {{ ...G }} fragment G on {} {{ {} }}", p, t, leaf_of(t)));
+            if let Some(fields) = path.get(p) {
+                let open: String = fields.iter().map(|f| format!("{} {{ ", f)).collect();
+                let close: String = fields.iter().map(|_| "} ").collect();
+                out.push(format!("{{ {}... on {} {{ {} }} {}}}", open, t, leaf_of(t), close));
+                out.push(format!("{{ {}...G {}}} fragment G on {} {{ {} }}", open, close, t, leaf_of(t)));
+            }
+        }
+    }
+    out
+}
+
+/// C03 / C05: fragments on type A that spread each other (cycles through spreads only and through
+/// fields), reached from mutually exclusive contexts (same response key under `... on A` / `... on B`)
+/// and from plain contexts, in random order — the synthetic schema's A/B are distinct object types.
+pub fn merge_cycle_cases(rng: &mut Rng, n: usize) -> Vec<GDoc> {
+    let leaf = |alias: Option<&str>, name: &str| GSel::Field { alias: alias.map(|x| x.to_string()), name: name.into(), args: vec![], dirs: vec![], sels: vec![] };
+    let field = |alias: Option<&str>, name: &str, sels: Vec<GSel>| GSel::Field { alias: alias.map(|x| x.to_string()), name: name.into(), args: vec![], dirs: vec![], sels };
+    let mut out = vec![];
+    for _ in 0..n {
+        let k = rng.range(2, 4);
+        let fname = |i: usize| format!("F{}", i);
+        let mut defs: Vec<GDef> = vec![];
+        let spreads = |rng: &mut Rng| -> Vec<GSel> {
+            let c = rng.range(1, 2);
+            (0..c).map(|_| GSel::Spread { name: fname(rng.below(k)), dirs: vec![] }).collect()
+        };
+        // the operation
+        let mut sels: Vec<GSel> = vec![];
+        for _ in 0..rng.range(2, 4) {
+            match rng.below(3) {
+                0 => {
+                    sels.push(GSel::Inline { tc: Some("A".into()), dirs: vec![], sels: vec![field(Some("o"), "self", spreads(rng))] });
+                    sels.push(GSel::Inline { tc: Some("B".into()), dirs: vec![], sels: vec![field(Some("o"), "peer", spreads(rng))] });
+                }
+                1 => {
+                    sels.push(GSel::Inline { tc: Some("A".into()), dirs: vec![], sels: vec![field(Some("p"), "self", spreads(rng)), field(Some("p"), "self", spreads(rng))] });
+                }
+                _ => {
+                    sels.push(GSel::Inline { tc: Some("A".into()), dirs: vec![], sels: vec![field(None, "self", spreads(rng))] });
+                }
+            }
+        }
+        let root_field = if rng.pct(50) { "node" } else { "ab" };
+        defs.push(GDef::Op { kind: OpKind::SelSet, name: None, vars: vec![], dirs: vec![], sels: vec![field(None, root_field, sels)] });
+        for i in 0..k {
+            let mut body: Vec<GSel> = vec![];
+            for _ in 0..rng.range(1, 3) {
+                match rng.below(20) {
+                    0..=4 => body.push(leaf(Some("x"), if rng.pct(50) { "name" } else { "nick" })),
+                    5..=12 => body.push(GSel::Spread { name: fname(rng.below(k)), dirs: vec![] }),
+                    _ => {
+                        let mut inner = vec![GSel::Spread { name: fname(rng.below(k)), dirs: vec![] }];
+                        if rng.pct(40) {
+                            inner.push(leaf(Some("x"), if rng.pct(50) { "name" } else { "nick" }));
+                        }
+                        body.push(field(None, "self", inner));
+                    }
+                }
+            }
+            defs.push(GDef::Frag { name: fname(i), tc: "A".into(), dirs: vec![], sels: body });
+        }
+        out.push(GDoc(defs));
+    }
+    out
+}
